@@ -18,6 +18,8 @@ Results
 -/
 import OpenFGAVerif.Proofs.ValidationMain
 import OpenFGAVerif.Gen.Validation
+import OpenFGAVerif.Props.ReqValidate
+import OpenFGAVerif.Props.Misc3
 
 namespace OpenFGAVerif.C18
 open OpenFGAVerif.Model.TupleStr (Bytes cColon cHash cAt cStar cSpace wildcard runes isControl indexByte lastIndexByte splitObject buildObject getType splitObjectRelation getRelation toObjectRelationString getObjectRelationAsString toUserParts isValidObject isValidRelation isValidUserID isValidUserset isValidUser isObjectRelation isTypedWildcard isWildcard typedPublicWildcard)
